@@ -556,8 +556,22 @@ fn ser_show<T: Serialize + ?Sized>(v: &T, k: usize, t_nhr: Option<&str>) -> Stri
 fn ser_case<T: Serialize + Clone>(v: &T, k: usize) -> String {
     let t = ser_show(v, k, None);
     let t_nhr = ser_one(v, k, false).0;
+    // the handle must come out of a serialisation (successful or failed at the k-th callback) as it went in: still the
+    // sole owner, and its block freed when it is dropped (no reference taken and lost on the error path)
+    set_recording(true);
     let a = Arc::new(v.clone());
-    let ar = ser_show(&a, k, Some(&t_nhr));
+    set_recording(false);
+    let _ = take_events();
+    let blk = harness::rec_of(a.heap_ptr() as usize).map(|x| x.0);
+    let mut ar = ser_show(&a, k, Some(&t_nhr));
+    let cnt_after = Arc::count(&a);
+    let uniq_after = a.is_unique();
+    set_recording(true);
+    drop(a);
+    set_recording(false);
+    let _ = take_events();
+    let freed = blk.map(|i| !harness::rec(i).live).unwrap_or(false);
+    ar = format!("{},cnt_after={},unique_after={},freed={}}}", &ar[..ar.len() - 1], cnt_after, uniq_after, freed);
     let u = UniqueArc::new(v.clone());
     let ur = ser_show(&u, k, Some(&t_nhr));
     format!("T={} Arc={} Unique={}", t, ar, ur)
